@@ -715,6 +715,14 @@ def h1CanResponse (data : Bytes) : Bool :=
     | v :: c :: _ => isHttp1VersionTok v && c.length == HttpLists.gateStatusDigits && c.all isDigit
     | _ => false
 
+/-- `looks_like_http1_response` (public helper; `split_whitespace` instead of `splitn`) -/
+def looksLikeHttp1Response (data : Bytes) : Bool :=
+  if data.length < HttpLists.gateResponseMinLen then false
+  else if decide (data.length ≥ 9) && looksLikeHttp2Response data then false
+  else match splitWs (firstLine data) with
+    | v :: c :: _ => isHttp1VersionTok v && c.length == HttpLists.gateStatusDigits && c.all isDigit
+    | _ => false
+
 /-- `Http2Processor::can_process_request` -/
 def h2CanRequest (data : Bytes) : Bool :=
   decide (data.length ≥ HttpLists.h2GateRequestMinLen) && isHttp2Traffic data
